@@ -15,6 +15,7 @@ EXPLANATION = ('R-PAIRCALL: every method that appends a section (subpath_array.a
                'element_center and spine. R-UNIT: the OASIS PATH half-width is 0.5 x interpolated width x width_scale, the GDSII '
                'WIDTH the full width. R-EXHAUST: SubPathType in eval/gradient, InterpolationType in interp, EndType in the writers. '
                'R-CONSUME: operand consumption of RobustPath::commands. Outline accuracy and intersection convergence are not decided.')
+ADVISORY = [('R-CLONE', r'^RobustPath query prologue'), ('R-SHAPE', r'^RobustPath query prologue/clamp')]
 ASSUMPTIONS = ['SubPath::eval/gradient numerics are not analysed', 'RobustPath transforms are covered by C10']
 XREF_FILES = ['src/robustpath.cpp']
 
@@ -223,12 +224,33 @@ def check_clones(ctx, db):
     ok = 'if (($u >= this->subpath_array.count))' in ref and '($u = (double)this->subpath_array.count)' in ref and 'if (($u < 0))' in ref and 'uint64_t v0 = (uint64_t)$u' in ref \
         and 'if ((($from_below && ($u == 0)) && (v0 > 0)))' in ref and 'if ((v0 == this->subpath_array.count))' in ref
     ctx.check(ok, 'R-SHAPE', 'RobustPath query prologue/clamp', db.fn('gdstk::RobustPath::position').loc(), 'u is clamped to [0, count]; the index is stepped back at a joint (from_below) and at the very end')
-    # width/offset scale by their own scale factor
-    for q, sc, arr in (('width', 'width_scale', 'width_array'), ('offset', 'offset_scale', 'offset_array')):
+    # width/offset scale by their own scale factor: value-flow sources of what is stored through the output pointer (sa/deps.py)
+    from .. import deps
+    for q, sc, arr, other in (('width', 'width_scale', 'width_array', 'offset_scale'), ('offset', 'offset_scale', 'offset_array', 'width_scale')):
         f = db.fn('gdstk::RobustPath::' + q)
-        st = [x for x in f.walk() if is_assign(x) and x.child('lhs').k == 'UnaryOperator']
-        ok = len(st) == 1 and re.match(r'^\(interp\(v\d+->%s\[v\d+\], \$u\) \* this->%s\)$' % (arr, sc), norm(st[0].child('rhs').text(clone.Renamer(f, params_by_name=True)))) is not None
-        ctx.check(ok, 'R-SHAPE', 'RobustPath::%s/scale' % q, f.loc(), '%s queries evaluate %s and scale by %s' % (q, arr, sc))
+        D = deps.Deps(f)
+        outp = 'v%d:%s' % (f.params[-1]['d'], f.params[-1]['n'])
+        st = []
+        for x in f.walk():
+            if is_assign(x) and x.op == '=':
+                l = _strip_casts(x.child('lhs'))
+                ptr = l.child('sub') if (l.k == 'UnaryOperator' and l.op == '*') else (l.child('base') or l.c[0]) if l.k == 'ArraySubscriptExpr' else None
+                r = D.root_of_ptr(ptr) if ptr is not None else None
+                if r is not None and r[0] == outp:
+                    st.append(x)
+        if not st:
+            raise AnalysisBroken('RobustPath::%s: store through the output pointer not found' % q)
+        ok = True
+        why = ''
+        for x in st:
+            src = D.sources(x.child('rhs'))
+            arrs = {k_: t for k_, t in src.items() if k_[0].endswith(arr)}
+            scs = {k_: t for k_, t in src.items() if k_[0] == 'this->' + sc}
+            wrong = [k_ for k_ in src if k_[0] == 'this->' + other or (k_[0].endswith('_array') and not k_[0].endswith(arr))]
+            if not arrs or not all('call:interp' in t and 'scale' in t for t in arrs.values()) or not scs or not all(t == frozenset({'scale'}) for t in scs.values()) or wrong:
+                ok = False
+                why = 'stored value comes from %s' % sorted((k_[0], sorted(t)) for k_, t in src.items())
+        ctx.check(ok, 'R-SHAPE', 'RobustPath::%s/scale' % q, f.loc(), '%s queries evaluate %s and scale by %s' % (q, arr, sc), why)
     # left/right positions: centre -/+ half the scaled width along the normal
     for side, sign in (('left', '+'), ('right', '-')):
         f = db.fn('gdstk::RobustPath::%s_position' % side)
